@@ -52,4 +52,5 @@ def jobs(tier, seed):
         J.append(product_job(P, f'name-L{L}', G, sc('headers', L, prefix=b'', suffix=b': v\r\n\r\n', cap=1, fixed={i: NOCOLON for i in range(L)}),
                              60 if tier == 'quick' else 300, f'{L} symbolic name bytes (any value but ":") + ": v" CRLFCRLF', family='name', mandatory=(L <= 16)))
     J += sliding_families(P, G, tier, default_flags=True, step=T(tier, 2, 1))
+    J += neighbourhood_families(P, G, tier, default_flags=True)
     return J
